@@ -1,1 +1,234 @@
-fn main(){}
+mod adapters;
+mod baton;
+mod exec;
+mod narrate;
+mod oracle;
+mod prog;
+mod props;
+mod strs;
+mod world;
+
+use std::collections::{BTreeMap, HashSet};
+use std::io::Write;
+
+use proptest::strategy::ValueTree;
+use proptest::test_runner::{Config, RngAlgorithm, TestCaseError, TestError, TestRng, TestRunner};
+use serde_json::json;
+
+use crate::oracle::Viol;
+use crate::prog::Program;
+
+fn arg<'a>(args: &'a [String], k: &str) -> Option<&'a str> {
+    args.iter().position(|a| a == k).and_then(|i| args.get(i + 1)).map(|s| s.as_str())
+}
+
+fn seed_bytes(seed: u64, worker: u64, stream: &str) -> [u8; 32] {
+    // splitmix64-based expansion: a pure function of (VERIF_SEED, worker, stream)
+    let mut x = seed
+        .wrapping_mul(0x9E3779B97F4A7C15)
+        .wrapping_add(worker.wrapping_mul(0xBF58476D1CE4E5B9))
+        .wrapping_add(stream.bytes().fold(0u64, |a, b| a.wrapping_mul(131).wrapping_add(b as u64)));
+    let mut out = [0u8; 32];
+    for c in out.chunks_mut(8) {
+        x = x.wrapping_add(0x9E3779B97F4A7C15);
+        let mut z = x;
+        z = (z ^ (z >> 30)).wrapping_mul(0xBF58476D1CE4E5B9);
+        z = (z ^ (z >> 27)).wrapping_mul(0x94D049BB133111EB);
+        z ^= z >> 31;
+        c.copy_from_slice(&z.to_le_bytes());
+    }
+    out
+}
+
+fn quiet_panics() {
+    std::panic::set_hook(Box::new(|info| {
+        let name = std::thread::current().name().map(|s| s.to_string()).unwrap_or_default();
+        if name.starts_with("vt") {
+            return; // caught and recorded by the interpreter
+        }
+        eprintln!("panic on thread {:?}: {}", name, info);
+    }));
+}
+
+struct Acc {
+    evaluations: u64,
+    nontrivial: HashSet<u64>,
+    labels: BTreeMap<String, u64>,
+    excluded: BTreeMap<String, u64>,
+    known_hits: BTreeMap<String, u64>,
+    samples: Vec<serde_json::Value>,
+    failed: bool,
+    records: u64,
+    ops: u64,
+    skipped: u64,
+}
+
+fn worker(args: &[String]) -> i32 {
+    let prop = arg(args, "--prop").expect("--prop");
+    let variant = arg(args, "--variant").unwrap_or("api");
+    let seed: u64 = arg(args, "--seed").unwrap_or("0").parse().unwrap();
+    let wid: u64 = arg(args, "--worker").unwrap_or("0").parse().unwrap();
+    let cases: u32 = arg(args, "--cases").unwrap_or("100").parse().unwrap();
+    let out = arg(args, "--out").expect("--out");
+    let cancelable = arg(args, "--cancelable").unwrap_or("false") == "true";
+    let thorough = arg(args, "--tier").unwrap_or("quick") == "thorough";
+    let known: Vec<String> = arg(args, "--known").map(|k| k.split("||").filter(|s| !s.is_empty()).map(|s| s.to_string()).collect()).unwrap_or_default();
+    let spec = match props::spec(prop, variant, cancelable, thorough) {
+        Some(s) => s,
+        None => {
+            eprintln!("unknown property/variant {} {}", prop, variant);
+            return 2;
+        }
+    };
+    quiet_panics();
+    let strategy = prog::program_strategy(&spec.profile);
+    let cfg = Config {
+        cases,
+        failure_persistence: None,
+        max_shrink_iters: 4000,
+        max_global_rejects: 1,
+        ..Config::default()
+    };
+    let mut runner = TestRunner::new_with_rng(cfg, TestRng::from_seed(RngAlgorithm::ChaCha, &seed_bytes(seed, wid, &format!("{}/{}/{}", prop, variant, cancelable))));
+    let acc = std::cell::RefCell::new(Acc {
+        evaluations: 0,
+        nontrivial: HashSet::new(),
+        labels: BTreeMap::new(),
+        excluded: BTreeMap::new(),
+        known_hits: BTreeMap::new(),
+        samples: vec![],
+        failed: false,
+        records: 0,
+        ops: 0,
+        skipped: 0,
+    });
+    let start = std::time::Instant::now();
+    let opts = spec.opts.clone();
+    let result = runner.run(&strategy, |p: Program| {
+        let h = exec::run_case(&p, &opts);
+        let viols = (spec.oracle)(&h);
+        let mut a = acc.borrow_mut();
+        let unknown: Vec<&Viol> = viols.iter().filter(|v| !known.iter().any(|k| *k == v.sig)).collect();
+        if !a.failed {
+            a.evaluations += 1;
+            a.records += h.batches.iter().map(|b| b.records.len() as u64).sum::<u64>();
+            a.ops += h.executed_ops as u64;
+            a.skipped += h.skipped_ops as u64;
+            for (k, n) in &h.labels {
+                *a.labels.entry(k.to_string()).or_insert(0) += *n as u64;
+            }
+            for (k, n) in &h.excluded {
+                *a.excluded.entry(k.to_string()).or_insert(0) += *n as u64;
+            }
+            for vv in &viols {
+                if known.iter().any(|k| *k == vv.sig) {
+                    *a.known_hits.entry(vv.sig.clone()).or_insert(0) += 1;
+                }
+            }
+            if (spec.nontrivial)(&h) {
+                let hs = props::shape_hash(&h);
+                if a.nontrivial.insert(hs) && a.samples.len() < 3 && h.executed_ops <= 14 {
+                    a.samples.push(json!({"program": p, "records_delivered": h.batches.iter().map(|b| b.records.len()).sum::<usize>(), "cycles": h.cycles.len(), "labels": h.labels}));
+                }
+            }
+        }
+        if unknown.is_empty() {
+            Ok(())
+        } else {
+            a.failed = true;
+            Err(TestCaseError::fail(unknown[0].sig.clone()))
+        }
+    });
+    let a = acc.into_inner();
+    let mut failure = serde_json::Value::Null;
+    if let Err(e) = &result {
+        match e {
+            TestError::Fail(reason, p) => {
+                let h = exec::run_case(p, &opts);
+                let viols = (spec.oracle)(&h);
+                failure = json!({
+                    "signature": reason.to_string(),
+                    "program": p,
+                    "violations": viols.iter().map(|v| json!({"sig": v.sig, "msg": v.msg})).collect::<Vec<_>>(),
+                });
+            }
+            TestError::Abort(r) => {
+                failure = json!({"abort": r.to_string()});
+            }
+        }
+    }
+    let mut nt: Vec<u64> = a.nontrivial.iter().cloned().collect();
+    nt.sort();
+    let res = json!({
+        "property": prop, "variant": variant, "cancelable": cancelable, "seed": seed, "worker": wid,
+        "evaluations": a.evaluations,
+        "nontrivial_hashes": nt.iter().map(|h| format!("{:016x}", h)).collect::<Vec<_>>(),
+        "labels": a.labels, "excluded": a.excluded, "known_hits": a.known_hits,
+        "samples": a.samples,
+        "records_delivered": a.records, "ops_executed": a.ops, "ops_skipped": a.skipped,
+        "failure": failure,
+        "rule": spec.rule,
+        "wall_s": start.elapsed().as_secs_f64(),
+    });
+    std::fs::File::create(out).unwrap().write_all(serde_json::to_string(&res).unwrap().as_bytes()).unwrap();
+    0
+}
+
+fn replay(args: &[String]) -> i32 {
+    let file = arg(args, "--file").expect("--file");
+    let txt = std::fs::read_to_string(file).expect("read replay");
+    let v: serde_json::Value = serde_json::from_str(&txt).expect("json");
+    let prop = v["property"].as_str().unwrap();
+    let variant = v["variant"].as_str().unwrap_or("api");
+    let pv = if v["program"].is_null() { v["failure"]["program"].clone() } else { v["program"].clone() };
+    let p: Program = serde_json::from_value(pv).expect("program");
+    let spec = props::spec(prop, variant, p.cancelable, false).expect("spec");
+    quiet_panics();
+    let mut opts = spec.opts.clone();
+    if arg(args, "--strict").is_some() {
+        opts.exclude.clear();
+    }
+    let h = exec::run_case(&p, &opts);
+    let viols = (spec.oracle)(&h);
+    let out = json!({
+        "violations": viols.iter().map(|v| json!({"sig": v.sig, "msg": v.msg})).collect::<Vec<_>>(),
+        "records": h.batches.iter().map(|b| b.records.iter().map(|r| format!("{} trace={:x} id={:x} parent={:x} props={} events={}", r.name, r.trace_id.0, r.span_id.0, r.parent_id.0, r.properties.len(), r.events.len())).collect::<Vec<_>>()).collect::<Vec<_>>(),
+        "panics": h.panics.iter().map(|p| format!("{}: {}", p.op, p.msg)).collect::<Vec<_>>(),
+        "narrative": narrate::narrate(&h),
+        "excluded": h.excluded,
+    });
+    println!("{}", serde_json::to_string_pretty(&out).unwrap());
+    if viols.is_empty() {
+        0
+    } else {
+        1
+    }
+}
+
+fn gen_sample(args: &[String]) -> i32 {
+    // print a few generated programs (debugging aid)
+    let prop = arg(args, "--prop").expect("--prop");
+    let variant = arg(args, "--variant").unwrap_or("api");
+    let spec = props::spec(prop, variant, false, false).expect("spec");
+    let strategy = prog::program_strategy(&spec.profile);
+    let mut runner = TestRunner::new_with_rng(Config::default(), TestRng::from_seed(RngAlgorithm::ChaCha, &seed_bytes(1, 0, "sample")));
+    for _ in 0..3 {
+        let t = proptest::strategy::Strategy::new_tree(&strategy, &mut runner).unwrap();
+        println!("{}", serde_json::to_string(&t.current()).unwrap());
+    }
+    0
+}
+
+fn main() {
+    let args: Vec<String> = std::env::args().collect();
+    let code = match args.get(1).map(|s| s.as_str()) {
+        Some("worker") => worker(&args),
+        Some("replay") => replay(&args),
+        Some("sample") => gen_sample(&args),
+        _ => {
+            eprintln!("usage: fr-core worker|replay|sample ...");
+            2
+        }
+    };
+    std::process::exit(code);
+}
